@@ -11,7 +11,9 @@ PARTIAL = ['in-context theorem: parametricity (respell_group_names) + accessors_
 THOROUGH_MODULES = ['SqlPropsSlow.C12Table']
 
 PLAIN = ['col_x', 't1', 'emp', 'zz9', 'a', 'B', 'u_name', 'dept_id', 'x1y', 'Tbl']
-QUOTED = ['"Q x"', '"select"', '"a;b"', '"it""s"', '"x.y"', '`bq`', '`from`', '`a b`', '"Ünï"', '"a,b"']
+QUOTED = ['"Q x"', '"select"', '"a;b"', '"it""s"', '"x.y"', '`bq`', '`from`', '`a b`', '"Ünï"', '"a,b"',
+          # escaped quote characters directly inside the delimiters, other quote characters inside, a lone character
+          '"a"""', '"""y"', '"""mid"""', '`q```', '```r`', '"it`s"', "`o'k`", '"q"', '"\'"']
 WS = [' ', '  ', '\t', '\n', ' \n ']
 
 
